@@ -761,7 +761,7 @@ def main():
     ok_go, log_go, gobin = build_go()
     findings = load_findings(prop)
     rng = SplitMix(seed)
-    n_cases = dict(quick=700, thorough=9000)[tier]
+    n_cases = dict(quick=700, thorough=40000)[tier]
     cases, stats = [], collections.Counter()
     corpus_dir = os.path.join(VERIF, 'corpus', prop)
     corpus = []
